@@ -51,11 +51,11 @@ def cases(tier, seed):
 
     for L in LMAXES:
         for dim in (3, 2):
-            add('rot-table', L, dim=dim, nmat=(3 if tier == 'quick' else 8))
-    nops = 40 if tier == 'quick' else 1200
+            add('rot-table', L, dim=dim, nmat=(3 if tier == 'quick' else 20))
+    nops = 40 if tier == 'quick' else 3000
     for i in range(nops):
         L = 4 if i % 2 == 0 else (2, 3, 5, 6)[(i // 2) % 4]
-        add('ops', L, trials=(6 if tier == 'quick' else 10))
+        add('ops', L, trials=(6 if tier == 'quick' else 16))
     return cs
 
 
